@@ -170,6 +170,111 @@ func checkC15(c *core.Ctx) error {
 		}
 		c.Check(bad == "", "C15.R2", cons, "Tr inside / Tf outside the interior loop", pos, bad)
 	})
+	// ---- R3 restricted recursions read the previous vector over the index set it was written over
+	c.Rule("C15.R3", "in the restricted forward recursion (Posterior of state-set sequences) the predecessor loop ranges over the state set of the previous position: range states[e-1] inside range states[e]; the recursion starts on states[0] and the final sum ranges over the set last written", 3)
+	if fd := findMethodDecl(pkg, "Hmm", "Posterior"); fd == nil {
+		c.Unknown("C15.R3", "statistics/generic.(*Hmm).Posterior", "method found", token.NoPos, "method Posterior not found")
+	} else {
+		info := pkg.TypesInfo
+		_ = info
+		statesIdx := func(e ast.Expr) ast.Expr {
+			ix, ok := ast.Unparen(e).(*ast.IndexExpr)
+			if !ok || exprStr(ix.X) != "states" {
+				return nil
+			}
+			return ix.Index
+		}
+		// linear form of an index expression over the symbols k and n: (ck, cn, c0)
+		type lin struct{ k, n, c int }
+		var linOf func(e ast.Expr) (lin, bool)
+		linOf = func(e ast.Expr) (lin, bool) {
+			switch v := ast.Unparen(e).(type) {
+			case *ast.Ident:
+				switch v.Name {
+				case "k":
+					return lin{1, 0, 0}, true
+				case "n":
+					return lin{0, 1, 0}, true
+				}
+			case *ast.BasicLit:
+				var x int
+				if _, err := fmt.Sscanf(v.Value, "%d", &x); err == nil {
+					return lin{0, 0, x}, true
+				}
+			case *ast.BinaryExpr:
+				a, ok1 := linOf(v.X)
+				b, ok2 := linOf(v.Y)
+				if ok1 && ok2 {
+					switch v.Op {
+					case token.ADD:
+						return lin{a.k + b.k, a.n + b.n, a.c + b.c}, true
+					case token.SUB:
+						return lin{a.k - b.k, a.n - b.n, a.c - b.c}, true
+					}
+				}
+			}
+			return lin{}, false
+		}
+		nPairs := 0
+		var lastWrite ast.Expr
+		ast.Inspect(fd.Body, func(n ast.Node) bool {
+			outer, ok := n.(*ast.RangeStmt)
+			if !ok {
+				return true
+			}
+			wi := statesIdx(outer.X)
+			if wi == nil {
+				return true
+			}
+			// a write loop contains a nested range over states[...] reading the previous vector
+			found := false
+			ast.Inspect(outer.Body, func(m ast.Node) bool {
+				inner, ok := m.(*ast.RangeStmt)
+				if !ok {
+					return true
+				}
+				ri := statesIdx(inner.X)
+				if ri == nil {
+					return true
+				}
+				found = true
+				nPairs++
+				lw, ok1 := linOf(wi)
+				lr, ok2 := linOf(ri)
+				cons := fmt.Sprintf("statistics/generic.(*Hmm).Posterior range states[%s]", exprStr(wi))
+				if !ok1 || !ok2 {
+					c.Unknown("C15.R3", cons, "predecessor set is states[e-1]", inner.Pos(), "index expressions are not linear in k and n")
+					return false
+				}
+				okPrev := lr.k == lw.k && lr.n == lw.n && lr.c == lw.c-1
+				c.Check(okPrev, "C15.R3", cons, "predecessor set is states[e-1]", inner.Pos(),
+					fmt.Sprintf("the recursion writes the entries of states[%s] but sums over the predecessors in states[%s] instead of states[%s-1]: entries of the previous vector that were never written for that position are read, and admissible predecessors are dropped", exprStr(wi), exprStr(ri), exprStr(wi)))
+				return false
+			})
+			if found {
+				lastWrite = wi
+			}
+			return true
+		})
+		c.Check(nPairs >= 2, "C15.R3", "statistics/generic.(*Hmm).Posterior", "restricted recursion found (interior and final step)", fd.Pos(), fmt.Sprintf("found %d restricted recursion steps", nPairs))
+		// the final sum ranges over the set written by the last step
+		if lastWrite != nil {
+			var sumIdx ast.Expr
+			for _, st := range fd.Body.List {
+				if rg, ok := st.(*ast.RangeStmt); ok {
+					if si := statesIdx(rg.X); si != nil {
+						sumIdx = si
+					}
+				}
+			}
+			if sumIdx != nil {
+				a, ok1 := linOf(sumIdx)
+				b, ok2 := linOf(lastWrite)
+				c.Check(ok1 && ok2 && a == b, "C15.R3", "statistics/generic.(*Hmm).Posterior", "final sum ranges over the set written last", sumIdx.Pos(),
+					fmt.Sprintf("the final sum ranges over states[%s] but the last step wrote states[%s]", exprStr(sumIdx), exprStr(lastWrite)))
+			}
+		}
+	}
 	return nil
 }
 
